@@ -145,6 +145,78 @@ func runPubCase(c pubCase) (obs []string, nEvents int, timedOut bool) {
 	return
 }
 
+// shutrace: concurrent callers.  k goroutines each subscribe their own recording subscriber to topics 1, 2, 3, ...
+// until Subscribe reports the publisher closed (or 40 topics), while the main goroutine calls Shutdown.  Whatever
+// the interleaving, the calls are linearised by the publisher's lock: every Subscribe that returned true was queued
+// before the shutdown command, every one that returned false is dropped.  So the history is equivalent to the
+// sequential script  [accepted subscribes] ++ [shutdown]  and every accepted (topic, subscriber) must be told
+// exactly once that it ended, at the shutdown, with nothing else delivered.  The case handed to the model and to
+// the monitors is that script with the subscribers' complete logs as the observation of the shutdown call.
+func runShutRace(k int) (pc pubCase, obs []string, accepted int, closes int) {
+	ps := notifications.NewPublisher()
+	ps.Startup()
+	var mu sync.Mutex
+	subs := make([]*recSub, k)
+	acc := make([][]uint64, k)
+	for i := range subs {
+		subs[i] = &recSub{mu: &mu, id: uint64(i + 1), subs: map[uint64]bool{}}
+		pc.Univ = append(pc.Univ, uint64(i+1))
+	}
+	var wg sync.WaitGroup
+	start := make(chan struct{})
+	for i := 0; i < k; i++ {
+		wg.Add(1)
+		go func(i int) {
+			defer wg.Done()
+			<-start
+			for t := uint64(1); t <= 40; t++ {
+				if !ps.Subscribe(t, subs[i]) {
+					return
+				}
+				acc[i] = append(acc[i], t)
+			}
+		}(i)
+	}
+	close(start)
+	ps.Shutdown()
+	wg.Wait()
+	for i := range acc {
+		accepted += len(acc[i])
+	}
+	deadline := time.Now().Add(300 * time.Millisecond)
+	for {
+		mu.Lock()
+		closes = 0
+		for _, sb := range subs {
+			closes += len(sb.evs)
+		}
+		mu.Unlock()
+		if closes >= accepted || time.Now().After(deadline) {
+			break
+		}
+		time.Sleep(50 * time.Microsecond)
+	}
+	empty := make([]string, k)
+	for i := range empty {
+		empty[i] = "[]"
+	}
+	for i := range acc {
+		for _, t := range acc[i] {
+			pc.Ops = append(pc.Ops, pubOp{K: "subscribe", T: t, S: uint64(i + 1)})
+			obs = append(obs, cw.List(empty))
+		}
+	}
+	pc.Ops = append(pc.Ops, pubOp{K: "shutdown"})
+	per := make([]string, k)
+	mu.Lock()
+	for i, sb := range subs {
+		per[i] = cw.List(sb.evs)
+	}
+	mu.Unlock()
+	obs = append(obs, cw.List(per))
+	return
+}
+
 func pubCaseTerm(c pubCase, obs []string) string {
 	ops := make([]string, len(c.Ops))
 	for i, o := range c.Ops {
@@ -253,6 +325,18 @@ func drivePublisher(c *ctx) error {
 	n := c.count(1500, 12000)
 	for i := 0; i < n; i++ {
 		add(genPubCase(c.r.Fork(), 25), "random")
+	}
+	// concurrent subscribers racing Shutdown: many trials, a sample and every failing trial become cases
+	trials, failing := c.count(4000, 40000), 0
+	for i := 0; i < trials && failing < 3; i++ {
+		pc, obs, accepted, closes := runShutRace(2 + i%3)
+		if closes != accepted {
+			failing++
+		}
+		if i < 20 || closes != accepted {
+			c.inflight(pc)
+			w.Add(pubCaseTerm(pc, obs), pc, accepted > 0, "kind:shutrace")
+		}
 	}
 	return w.Flush()
 }
